@@ -19,10 +19,12 @@ Binding
      (sentence 2) and the directory must be the one the machine predicts; every directory state also goes through (b).
 """
 import enum
+import itertools
 import json
 import numbers
 import os
 import re
+import shutil
 import traceback
 
 from lib import repo, tla
@@ -81,14 +83,14 @@ def _mkimg(path, w, h):
     PI.fromarray(_rgb(w, h)).save(path)
 
 
-def _mkfits(path, w, h, scale, ra=10.0, dec=20.0):
+def _mkfits(path, w, h, scale, ra=10.0, dec=20.0, crpix=None):
     import numpy as np
     from astropy.io import fits
     from astropy.wcs import WCS
     wcs = WCS(naxis=2)
     wcs.wcs.ctype = ["RA---TAN", "DEC--TAN"]
     wcs.wcs.crval = [ra, dec]
-    wcs.wcs.crpix = [w / 2 + 0.5, h / 2 + 0.5]
+    wcs.wcs.crpix = list(crpix) if crpix else [w / 2 + 0.5, h / 2 + 0.5]
     wcs.wcs.cdelt = [-scale, scale]
     data = (np.arange(w * h, dtype=np.float32).reshape(h, w) % 977) + 1.0
     fits.PrimaryHDU(data, header=wcs.to_header()).writeto(path, overwrite=True)
@@ -127,9 +129,17 @@ def make_inputs(d, quick):
                                       "C": (240, 200, 0.125, 100.0, -35.0),      # > 20 degrees: auto-detected TOAST
                                       "D": (280, 1100, 0.001, 200.0, 60.0),      # TAN, tall: sparse columns, 4 layers
                                       "E1": (300, 260, 0.001, 10.0, 20.0), "E2": (300, 260, 0.001, 10.25, 20.05),
+                                      # three tiny images whose pixel scales map to the natural TOAST levels 3, 2 and 1
+                                      # (guess_base_layer_level: 21.095'/2^(n-1) per pixel); collections of them must be
+                                      # sampled at the common (finest) level whatever the input order
+                                      "F": (40, 32, 0.1, 50.0, 10.0), "G": (36, 30, 0.25, 53.0, 12.0), "H": (30, 24, 0.5, 56.0, 8.0),
                                       }.items():
         inp[name] = os.path.join(d, "%s.fits" % name)
         _mkfits(inp[name], w, h, sc, ra, dec)
+    # two images of different sizes on ONE pixel grid (same CRVAL/CDELT, different CRPIX): the multi-TAN path
+    for name, (w, h, crpix) in {"N1": (300, 260, (150.5, 130.5)), "N2": (520, 300, (-129.5, 170.5))}.items():
+        inp[name] = os.path.join(d, "%s.fits" % name)
+        _mkfits(inp[name], w, h, 0.001, 10.0, 20.0, crpix=crpix)
     return inp
 
 
@@ -244,7 +254,6 @@ def _observe(outdir, log):
 
 
 def _pipeline_step(workdir, image_path):
-    import shutil
     from toasty import cli, pipeline
     from toasty.pipeline import astropix
 
@@ -293,6 +302,9 @@ def run_workflow(wf):
                     warnings.simplefilter("ignore")
                     if kind == "cli":
                         cli.entrypoint(list(arg))
+                    elif kind == "cascade-recorded":     # what the CLI tells the user to run next
+                        lv = _wtml_attrs(os.path.join(outdir, "index_rel.wtml"))[0]["tile_levels"]
+                        cli.entrypoint(["cascade", "--start", str(int(lv)), "-j", "1", outdir])
                     elif kind == "pipeline":
                         outdir = _pipeline_step(wf["outdir"], arg["image"])
                     elif kind == "tile_fits":
@@ -488,22 +500,52 @@ def run(ctx):
         return ("tile_fits", {"fits": fits, "method": method, "override": override, "input": i})
 
     FITS_INPUTS = {"A": (inp["A"], "AUTO_DETECT"), "B": (inp["B"], "AUTO_DETECT"), "C": (inp["C"], "AUTO_DETECT"),
-                   "D": (inp["D"], "TAN"), "T": (inp["B"], "TOAST"), "E": ([inp["E1"], inp["E2"]], "AUTO_DETECT")}
-    hist_inputs = ["A", "C"] if quick else ["A", "B", "C", "D"]
+                   "D": (inp["D"], "TAN"), "T": (inp["B"], "TOAST"), "E": ([inp["E1"], inp["E2"]], "AUTO_DETECT"),
+                   "N": ([inp["N1"], inp["N2"]], "AUTO_DETECT"), "NR": ([inp["N2"], inp["N1"]], "TAN")}
+    # multi-input TOAST collections of different pixel scales, in every input order: "M" + the order, e.g. MFG = [F, G]
+    toast_orders = [o for n in (2, 3) for o in itertools.permutations("FGH", n)]
+    for o in toast_orders:
+        FITS_INPUTS["M" + "".join(o)] = ([inp[x] for x in o], "TOAST")
+    multi_toast = ["MFG", "MGF", "MFHG", "MHGF", "MGFH"] if quick else ["M" + "".join(o) for o in toast_orders]
+    hist_inputs = ["A", "MFG"] if quick else ["A", "B", "C", "MFHG"]
     maxlen = 3 if quick else 4
+
+    def cli_view_toast(name, order):
+        """`toasty view --tile-only --tiling-method toast`: the CLI path into FitsTiler; the output directory is
+        derived from the first input, so the inputs are copied next to it."""
+        w = wf(name, None, "view-toast")
+        d = os.path.dirname(w["outdir"])
+        paths = []
+        for x in order:
+            paths.append(os.path.join(d, x + ".fits"))
+            shutil.copy(inp[x], paths[-1])
+        w["outdir"] = os.path.join(d, order[0] + "_tiled_TOAST")
+        w["steps"] = [("cli", ["view", "--tile-only", "--tiling-method", "toast", "-j", "1"] + paths)]
+        return w
+
+    def cli_multi_tan(name, order):
+        w = wf(name, None, "tile-multi-tan")
+        w["steps"] = [("cli", ["tile-multi-tan", "--outdir", w["outdir"], "-j", "1"] + [inp[x] for x in order]),
+                      ("cascade-recorded", None)]
+        return w
 
     flows = [cli_study("study-png", inp["study_png"], 2),
              cli_study("study-jpg", inp["study_jpg"], 2),
              cli_study("study-fits", inp["B"], 1, ["--placeholder-thumbnail"]),
              cli_allsky("allsky-d2", 2, "plate-carree"),
-             wf("pipeline", [("pipeline", {"image": inp["pipe"]})], "pipeline")]
+             wf("pipeline", [("pipeline", {"image": inp["pipe"]})], "pipeline"),
+             cli_view_toast("view-toast-FG", "FG"), cli_view_toast("view-toast-GHF", "GHF"),
+             cli_multi_tan("multi-tan-N1N2", ["N1", "N2"])]
+    if not quick:
+        flows += [cli_view_toast("view-toast-" + "".join(o), o) for o in toast_orders if "".join(o) not in ("FG", "GHF")]
+        flows += [cli_multi_tan("multi-tan-N2N1", ["N2", "N1"])]
     if not quick:
         flows += [cli_study("study-wide", inp["study_wide"], 3),
                   cli_allsky("allsky-d3-planet", 3, "plate-carree-planet"),
                   cli_allsky("allsky-d1-galactic", 1, "plate-carree-galactic")]
-    fits_single = ["A", "B", "C", "T"] + ([] if quick else ["D", "E"])
+    fits_single = ["A", "B", "C", "T", "N"] + multi_toast + ([] if quick else ["D", "E", "NR"])
     for i in sorted(set(fits_single) | set(hist_inputs)):
-        toast = i in ("C", "T")
+        toast = i in ("C", "T") or i.startswith("M")
         flows.append(wf("fits-" + i, [fits_call(i)], "tile_fits-toast" if toast else "tile_fits-tan"))
 
     def _checks(pool, pending):
@@ -751,6 +793,8 @@ def _step_text(step):
         return "toasty " + " ".join(a if os.sep not in a else os.path.basename(a) for a in arg)
     if kind == "tile_fits":
         return "tile_fits(%s%s)" % (arg["input"], ", override=True" if arg["override"] else "")
+    if kind == "cascade-recorded":
+        return "toasty cascade --start <recorded TileLevels>"
     return kind
 
 
